@@ -27,6 +27,7 @@ func checkC19(c *Ctx) {
 	c.Rule("C19/R6", "sibling recognisers: the new and the legacy 'key: value' line recognisers apply the same predicates (lower-case start, no space/upper in key, ':' after position 0, blank/tab separated value)")
 	c.Rule("C19/R7", "results are immutable: in the legacy reader every write to the current label map happens after the map was replaced by a copy in the same call; labels added by the server (permanent labels) are never set or removed by file content")
 
+	c.Rule("C19/R15", "a listing row shows its own labels only: where the storage client decodes a JSON row into a field of the iterator, a store resetting that field dominates the decode")
 	c.Rule("C19/R14", "the database answers as the in-memory pruning does: the statement that selects record contents returns every matching row (no DISTINCT: two records with the same content are two results), and the schema gives no column a collation (values compare bytewise, as part.merge compares them)")
 	c.Rule("C19/R13", "labels derived from names: the gomaxprocs label of a stored benchmark is the text after the name's last dash (strings.LastIndex); an upload's file name is derived by slicing, never through path.Base or filepath.Base")
 	c.Rule("C19/R12", "label sets are coalesced only when equal: in Labels.Equal a differing value and (where presence is tested) an absent key both lead to 'return false'")
@@ -47,6 +48,8 @@ func checkC19(c *Ctx) {
 	c19LabelsEqual(c, p)
 	c19NameLabels(c, p)
 	c19SQLText(c, p)
+	c19FirstEquals(c, p)
+	c19DecodeIntoFresh(c, p)
 	c19RepeatedCaptures(c, p, "C19/R11")
 	c20FreshMetaAll(c, p, "C19/R9")
 }
